@@ -10,6 +10,12 @@ Theorem C11_ready_is_true :
 Proof. exact ready_is_true_holds. Qed.
 Print Assumptions C11_ready_is_true.
 
+(* ... and only on a workload status that is current (observedGeneration caught up with generation) *)
+Theorem C11_ready_needs_a_current_workload_status :
+  forall sp st w r, reconcile sp st w = Some r -> ready_needs_a_current_status sp st w (obs_of r) = true.
+Proof. exact ready_needs_a_current_status_holds. Qed.
+Print Assumptions C11_ready_needs_a_current_workload_status.
+
 (* the batch cursor never advances beyond batchPartition *)
 Theorem C11_never_beyond_partition :
   forall sp st w r, 0 <= bs_batch st -> reconcile sp st w = Some r -> never_beyond_partition sp st (obs_of r) = true.
@@ -73,3 +79,12 @@ Theorem C11_canary_deployment_finalize_done_means_promoted : forall p f d d',
   CtlPlane.cdep_finalize p true f d = (CtlPlane.Done, d') -> CtlPlane.cdep_promoted p (CtlPlane.cd_status d) = true.
 Proof. exact Proofs.CtlPlane.cdep_finalize_done_means_promoted. Qed.
 Print Assumptions C11_canary_deployment_finalize_done_means_promoted.
+
+(* the readiness target itself (every workload kind of the batch arithmetic, Model/BatchArith.v): for an ordinary batch it is
+   at least the step's share of the workload rounded UP and capped at its size -- no pod is excused by rounding *)
+From RV Require Model.BatchArith Proofs.BatchArith.
+Theorem C11_readiness_target_is_what_the_batch_calls_for : forall a step c, 0 <= BatchArith.a_n a ->
+  znth (BatchArith.a_plan a) (BatchArith.a_cur a) = Some step -> BatchArith.calc_ctx a = Some c -> BatchArith.a_noneed a = None ->
+  Proofs.BatchArith.batch_calls_for (BatchArith.a_kind a) step (BatchArith.a_n a) <= BatchArith.c_desired c.
+Proof. exact Proofs.BatchArith.desired_is_what_the_batch_calls_for. Qed.
+Print Assumptions C11_readiness_target_is_what_the_batch_calls_for.
